@@ -3,6 +3,17 @@ times the numeric factors, plus the constant.  Rank / span by SVD on column-norm
 import numpy as np
 
 
+def _svd(m, compute_uv=True):
+    """numpy's divide-and-conquer SVD occasionally fails to converge on large rank-deficient 0/1
+    matrices; fall back to the slower QR-iteration driver."""
+    try:
+        return np.linalg.svd(m, full_matrices=False) if compute_uv else np.linalg.svd(m, compute_uv=False)
+    except np.linalg.LinAlgError:
+        import scipy.linalg
+
+        return scipy.linalg.svd(m, full_matrices=False, compute_uv=compute_uv, lapack_driver="gesvd")
+
+
 def indicators(values, levels):
     values = np.asarray(values, dtype=object)
     return np.column_stack([(values == lv).astype(float) for lv in levels]) if len(levels) else np.zeros((len(values), 0))
@@ -43,7 +54,7 @@ def rank(m, rtol=1e-9):
     if not keep.any():
         return 0
     m = m[:, keep] / norms[keep]
-    s = np.linalg.svd(m, compute_uv=False)
+    s = _svd(m, compute_uv=False)
     return int((s > rtol * s[0] * max(m.shape)).sum())
 
 
@@ -72,7 +83,7 @@ def min_sv_ratio(m):
         return 0.0
     if mn.shape[1] == 0:
         return 1.0
-    s = np.linalg.svd(mn, compute_uv=False)
+    s = _svd(mn, compute_uv=False)
     return float(s[-1] / s[0])
 
 
@@ -84,9 +95,8 @@ def residual_outside(a, b):
     an, _ = _normed(a)
     if an.shape[1] == 0:
         return 1.0
-    q, _r = np.linalg.qr(an)
     # guard against rank deficient a: use an orthonormal basis of its numerical range
-    u, s, _vt = np.linalg.svd(an, full_matrices=False)
+    u, s, _vt = _svd(an)
     u = u[:, s > 1e-10 * s[0]]
     res = bn - u @ (u.T @ bn)
     return float(np.max(np.linalg.norm(res, axis=0)))
